@@ -437,6 +437,354 @@ def run_scope(ctx, res, thorough):
                     del sys.modules[k]
 
 
+# ---------------------------------------------------------------------------------------------
+# names bound by import statements inside function bodies (Lean: DdsModel/Imports.lean)
+# ---------------------------------------------------------------------------------------------
+
+I_MODS = ["m1", "m2"]          # always used as  X.fa()
+I_FNS = ["g1", "g2", "hf"]     # always used as  X()
+I_VRS = ["v1", "v2", "VA"]     # always used bare
+I_LOCALS = ["p", "q"]
+I_POOL = I_MODS + I_FNS + I_VRS + I_LOCALS
+SUBS = ["ma", "mb", "mc"]
+
+
+class GenI(object):
+    """function bodies of the fragment of DdsModel/Imports.lean; `pk`: the accepted package, `ext`: a package that is not accepted"""
+
+    def __init__(self, rng, pk, ext):
+        self.rng, self.pk, self.ext = rng, pk, ext
+        self.uid = 0
+        self.hot = []          # the names imported so far in this function: used more often than the others
+
+    def use(self, x):
+        if x in I_MODS:
+            return {"t": "app", "f": {"t": "attr", "e": {"t": "name", "x": x}, "a": "fa"}, "a": {"t": "const"}, "shape": "attrcall"}
+        if x in I_FNS:
+            return {"t": "app", "f": {"t": "name", "x": x}, "a": {"t": "const"}, "shape": "call"}
+        return {"t": "name", "x": x}
+
+    def expr(self, depth):
+        r = self.rng.random()
+        if depth <= 0 or r < 0.45:
+            pool = self.hot if (self.hot and self.rng.random() < 0.5) else I_POOL
+            return self.use(self.rng.choice(pool)) if self.rng.random() < 0.9 else {"t": "const"}
+        if r < 0.65:
+            return {"t": "app", "f": self.expr(depth - 1), "a": self.expr(depth - 1), "shape": "plus"}
+        if r < 0.80:
+            return {"t": "lam", "params": self.rng.sample(I_POOL, self.rng.randint(0, 2)), "body": self.expr(depth - 1)}
+        ts = self.rng.sample(I_POOL, self.rng.randint(1, 2))
+        return {"t": "comp", "targets": ts, "iter": self.expr(depth - 1), "inner": self.expr(depth - 1), "kind": self.rng.choice(["list", "set", "gen"])}
+
+    def imp(self, accepted_only, avoid=()):
+        kind = self.rng.choice(["mod", "fun", "var"])
+        x = self.rng.choice([n for n in {"mod": I_MODS, "fun": I_FNS, "var": I_VRS}[kind] if n not in avoid] or ["m1"])
+        if x in avoid:
+            return {"t": "skip"}
+        kind = "mod" if x in I_MODS else ("fun" if x in I_FNS else "var")
+        root = self.pk if (accepted_only or self.rng.random() < 0.8) else self.ext
+        sub = self.rng.choice(SUBS) if root == self.pk else "ext"
+        path = [root, sub] + {"mod": [], "fun": ["fb"], "var": ["XA"]}[kind]
+        self.hot.append(x)
+        return {"t": "imp", "x": x, "p": path, "form": self.rng.choice(["absolute", "relative"]) if root == self.pk else "absolute"}
+
+    def stmt(self, depth, accepted_only):
+        r = self.rng.random()
+        if r < 0.30:
+            return {"t": "expr", "e": self.expr(depth)}
+        if r < 0.48:
+            return {"t": "assign", "targets": self.rng.sample(I_POOL, self.rng.randint(1, 2)), "e": self.expr(depth)}
+        if r < 0.70:
+            return self.imp(accepted_only)
+        if r < 0.88 and depth > 0:
+            return self.defn(depth - 1, accepted_only)
+        if r < 0.95 and depth > 0:
+            return {"t": "seq", "a": {"t": "expr", "e": self.expr(depth - 1)}, "b": self.stmt(depth - 1, accepted_only), "style": "if"}
+        return {"t": "skip"}
+
+    def defn(self, depth, accepted_only):
+        self.uid += 1
+        fname = self.rng.choice(["inner%d" % self.uid] + (I_FNS + I_LOCALS if self.rng.random() < 0.3 else []))
+        ps = self.rng.sample(I_POOL, self.rng.randint(0, 2))
+        hdr = self.use(self.rng.choice(I_POOL)) if self.rng.random() < 0.4 else {"t": "const"}
+        if hdr["t"] != "const":
+            ps = ps + ["_d%d" % self.uid]
+        body = [self.stmt(depth, accepted_only) for _ in range(self.rng.randint(1, 3))]
+        decl = []
+        if self.rng.random() < 0.3:
+            imported = {b["x"] for b in body if b["t"] == "imp"}
+            gl = [x for x in self.rng.sample(I_VRS + I_LOCALS, self.rng.randint(1, 2)) if x not in ps and x not in imported]
+            if gl:
+                decl.append({"t": "global", "xs": gl})
+        return {"t": "defn", "name": fname, "params": ps, "header": hdr, "body": seq(decl + body)}
+
+
+def render_imp(s, pk):
+    x, path = s["x"], s["p"]
+    if len(path) == 2:
+        if s.get("form") == "relative":
+            return "from . import %s as %s" % (path[1], x)
+        return ("import %s.%s as %s" % (path[0], path[1], x)) if (hash(x + path[1]) % 2) else ("from %s import %s as %s" % (path[0], path[1], x))
+    if s.get("form") == "relative":
+        return "from .%s import %s as %s" % (path[1], path[2], x)
+    return "from %s.%s import %s as %s" % (path[0], path[1], path[2], x)
+
+
+def render_istmt(s, ind, pk):
+    pad = "    " * ind
+    t = s["t"]
+    if t == "imp":
+        return [pad + render_imp(s, pk)]
+    if t == "defn":
+        ps = list(s["params"])
+        if s["header"]["t"] != "const":
+            ps = ps[:-1] + ["%s=%s" % (ps[-1], render_iexpr(s["header"]))]
+        return [pad + "def %s(%s):" % (s["name"], ", ".join(ps))] + render_istmt(s["body"], ind + 1, pk)
+    if t == "seq":
+        if s.get("style") == "if":
+            return [pad + "if %s:" % render_iexpr(s["a"]["e"])] + render_istmt(s["b"], ind + 1, pk)
+        return render_istmt(s["a"], ind, pk) + render_istmt(s["b"], ind, pk)
+    if t == "expr":
+        return [pad + render_iexpr(s["e"])]
+    if t == "assign":
+        return [pad + "%s = %s" % (", ".join(s["targets"]), render_iexpr(s["e"]))]
+    if t == "global":
+        return [pad + "global " + ", ".join(s["xs"])]
+    if t == "skip":
+        return [pad + "pass"]
+    raise ValueError(t)
+
+
+def render_iexpr(e):
+    t = e["t"]
+    if t == "app":
+        if e.get("shape") == "attrcall":
+            return "%s.fa()" % e["f"]["e"]["x"]
+        if e.get("shape") == "call":
+            return "%s()" % e["f"]["x"]
+        return "(%s + %s)" % (render_iexpr(e["f"]), render_iexpr(e["a"]))
+    return render_expr(dict(e, body=e.get("body"), inner=e.get("inner"))) if t not in ("lam", "comp") else (
+        "(lambda %s: %s)" % (", ".join(e["params"]), render_iexpr(e["body"])) if t == "lam" else
+        {"list": "[%s for %s in %s]", "set": "{%s for %s in %s}", "gen": "(%s for %s in %s)"}[e.get("kind", "list")] % (
+            render_iexpr(e["inner"]), ("(%s)" % ", ".join(e["targets"])) if len(e["targets"]) > 1 else e["targets"][0], render_iexpr(e["iter"])))
+
+
+def strip_i(node):
+    if isinstance(node, dict):
+        return {k: strip_i(v) for k, v in node.items() if k not in ("style", "kind", "shape", "form")}
+    if isinstance(node, list):
+        return [strip_i(x) for x in node]
+    return node
+
+
+def expected_records(refs, pk, modname):
+    """what the analysis records for the objects / names it looks up (every name is used in the way of its pool)"""
+    out = set()
+    for r in refs:
+        kind, val = r.split(":", 1)
+        if kind == "g":
+            if val in ("hf", "g1"):
+                out.add("fun:%s/%s/%s" % (pk, modname, val))
+            elif val in ("VA", "v1"):
+                out.add("var:" + val)
+            elif val == "m1":
+                out.add("fun:%s/mc/fa" % pk)         # the module binds m1 to <pk>.mc
+        else:
+            parts = val.split("/")
+            if parts[0] != pk:
+                continue
+            if len(parts) == 2:
+                out.add("fun:%s/fa" % val)
+            elif parts[2] == "fb":
+                out.add("fun:" + val)
+            else:
+                out.add("var:" + val)
+    return out
+
+
+IMPORT_CASES = [
+    # (what, source of f1 (kept) written against the package %(pk)s, must evaluate (True) / may be refused (False))
+    ("a use that comes before the import in the text and after it in the execution",
+     "def f1():\n    out = []\n    for i in (0, 1):\n        if i == 1:\n            out.append(tool.fa())\n        else:\n            from %(pk)s import ma as tool\n    return term('f1', out)\n", True),
+    ("a variable read through a module that the text imports further down",
+     "def f1():\n    out = []\n    for i in (0, 1):\n        if i == 1:\n            out.append(tool.XA)\n        else:\n            from %(pk)s import ma as tool\n    return term('f1', out)\n", True),
+    ("one name bound by two imports, one per branch",
+     "def f1(flag=True):\n    if flag:\n        import %(pk)s.ma as impl\n    else:\n        import %(pk)s.mb as impl\n    return term('f1', impl.fa())\n", False),
+    ("the import of a nested function next to a module-level name of the enclosing one",
+     "from %(pk)s.mb import fa as h\n\ndef f1():\n    def g():\n        from %(pk)s.ma import fa as h\n        return h()\n    return term('f1', g(), h())\n", True),
+    ("a parameter, a comprehension variable and a class attribute with the name of an imported module",
+     "def f1():\n    from %(pk)s import ma as tool\n    def k(tool):\n        return tool.upper()\n    ks = [tool for tool in tool.fa()]\n"
+     "    class K(object):\n        tool = 1\n        def m(self):\n            return tool.fa()\n    return term('f1', k('x'), ks, K().m())\n", True),
+    ("a default value that uses the import the parameter is named after",
+     "def f1():\n    from %(pk)s import ma as tool\n    def g(tool=tool.fa()):\n        return tool\n    return term('f1', g())\n", True),
+    ("imports of variables and functions, relative forms",
+     "def f1():\n    from .ma import fa as a1, XA as x1\n    from . import mb\n    return term('f1', a1(), x1, mb.fa(), mb.XA)\n", True),
+]
+
+
+def run_imports(ctx, res, thorough):
+    """(1) generated bodies: the real analysis against the model `analyse` (DdsModel/Imports.lean), the model's Python resolution against
+    the names CPython loads from the module; (2) directed, end to end: edits of the imported module, dds against plain execution"""
+    rng = ctx["rng"]
+    common.import_dds()
+    import dds
+    from dds.structures import DDSException
+    n_cases = 300 if thorough else 100
+    base = tempfile.mkdtemp(prefix="ddsverif_c01i_")
+    pk, ext = "c1i_%d" % os.getpid(), "c1x_%d" % os.getpid()
+    sub_src = "XA = 1\n\ndef fa():\n    return 1\n\n\ndef fb():\n    return 2\n"
+    try:
+        for d_, subs in ((pk, SUBS), (ext, ["ext"])):
+            os.makedirs(os.path.join(base, d_))
+            with open(os.path.join(base, d_, "__init__.py"), "w") as fh:
+                fh.write("".join("from . import %s\n" % s_ for s_ in subs))
+            for s_ in subs:
+                with open(os.path.join(base, d_, s_ + ".py"), "w") as fh:
+                    fh.write(sub_src)
+        sys.path.insert(0, base)
+        dds.accept_module(pk)
+        head = ("import %s.mc as m1\n\nVA = 1\nv1 = 2\n\n\ndef hf(*a):\n    return 7\n\n\ndef g1(*a):\n    return 8\n\n\n" % pk)
+        g = GenI(rng, pk, ext)
+        cases, src = [], head
+        for i in range(n_cases):
+            g.uid = 0
+            g.hot = []
+            accepted_only = rng.random() < 0.7
+            params = rng.sample(I_POOL, rng.randint(0, 2))
+            items = [g.stmt(3, accepted_only) for _ in range(rng.randint(1, 4))]
+            if i % 10 == 3:
+                # a name bound twice in one scope: to one object (fine) or to two (refused)
+                first = g.imp(True)
+                second = dict(first, p=list(first["p"])) if rng.random() < 0.4 else dict(first, p=[first["p"][0], rng.choice(SUBS)] + first["p"][2:])
+                items = [first] + items + [second]
+            body = seq(items)
+            fsrc = "def f%d(%s):\n" % (i, ", ".join("%s=0" % p_ for p_ in params)) + "\n".join(render_istmt(body, 1, pk)) + "\n\n\n"
+            try:
+                compile(head + fsrc, "<generated>", "exec")
+            except SyntaxError as e:
+                res.count("import_cases_rejected_by_python(%s)" % (str(e.msg)[:40]))
+                continue
+            cases.append((i, params, body, fsrc))
+            src += fsrc
+        with open(os.path.join(base, pk, "scopes.py"), "w") as fh:
+            fh.write(src)
+        oracle, over = cpython_global_reads([(head + fsrc, "f%d" % i) for (i, _, _, fsrc) in cases])
+        answers = common.drv_batch([{"op": "imports", "params": ps, "body": strip_i(b), "accepted": [pk], "roots": [pk, ext]}
+                                    for (_, ps, b, _) in cases]) if ctx["driver_ok"] else []
+        for idx, (i, params, body, fsrc) in enumerate(cases):
+            res.evaluations += 1
+            res.count("import_cases")
+            res.nontrivial("imports " + fsrc)
+            refused = None
+            try:
+                vs, fs = analysed_names_full(pk + ".scopes", "f%d" % i)
+                impl = {"var:" + v for v in vs} | {"fun:" + f for f in fs}
+            except DDSException as e:
+                refused = e.error_code.name if e.error_code is not None else "NO_CODE"
+                impl = None
+            except BaseException as e:
+                res.count("import_cases_refused_by_analysis(%s: %s)" % (type(e).__name__, re.sub(r"[^A-Za-z ]+", " ", str(e))[:60]))
+                continue
+            if not answers:
+                continue
+            m = answers[idx]
+            if "python" not in m:
+                res.disagreements.append({"what": "driver rejected the body", "detail": m, "source": fsrc})
+                continue
+            if m["analysis"] is None or refused is not None:
+                res.count("import_cases_refused_two_bindings")
+                if not (m["analysis"] is None and refused == "CONSTRUCT_NOT_SUPPORTED"):
+                    res.disagreements.append({"what": "a name bound to two objects: the analysis %s, the model %s" % (
+                        "refuses (%s)" % refused if refused else "accepts", "refuses" if m["analysis"] is None else "accepts"), "source": fsrc})
+                continue
+            want = expected_records(m["analysis"], pk, "scopes")
+            if impl != want:
+                res.disagreements.append({"what": "objects and names looked up by the analysis (variables recorded + functions analysed) differ from the model "
+                                                  "(DdsModel/Imports.lean analyse)", "analysis": sorted(impl), "model": sorted(want), "model_refs": m["analysis"], "source": fsrc})
+            if m["hypotheses"]:
+                res.count("import_cases_under_the_hypotheses_of_the_theorem")
+                if m["analysis"] != m["python"]:
+                    res.disagreements.append({"what": "the model contradicts its theorem (ddsRefs = pyRefs under the hypotheses)", "source": fsrc, "model": m})
+            if set(m["unresolved"]) != set(m["python"]):
+                res.count("import_cases_where_no_resolution_differs")
+            if set(m["text_order"]) != set(m["python"]) and m["hypotheses"]:
+                res.count("import_cases_where_text_order_resolution_differs")
+            if oracle is not None:
+                py_globs = {r[2:] for r in m["python"] if r.startswith("g:")}
+                if py_globs != oracle[idx] - {"Exception"}:
+                    res.disagreements.append({"what": "the model's Python resolution (pyRefs) reads other names from the module than CPython does",
+                                              "model": sorted(py_globs), "cpython": sorted(oracle[idx]), "source": fsrc})
+            if idx == 2:
+                res.sample({"import_case": fsrc, "looked_up": sorted(impl), "model": m["analysis"]})
+        if len(res.disagreements) > 6:
+            del res.disagreements[6:]
+    finally:
+        if base in sys.path:
+            sys.path.remove(base)
+        for k in list(sys.modules):
+            if k.split(".")[0] in (pk, ext):
+                del sys.modules[k]
+        shutil.rmtree(base, ignore_errors=True)
+    # directed, end to end: keep, edit the imported module, keep again: the value of plain execution (or a refusal where allowed)
+    real = pipeline.real_runner()
+    ref = pipeline.ref_worker()
+    for di_, (what, fsrc, must) in enumerate(IMPORT_CASES):
+        base = tempfile.mkdtemp(prefix="ddsverif_c01id_")
+        pkg = "c1id_%d_%d" % (os.getpid(), di_)
+        try:
+            real.reset_process_state()
+            real.set_store(["memory", "local"][di_ % 2], os.path.join(base, "si"), os.path.join(base, "sd"))
+            ref.call(cmd="refpaths", paths={})
+            os.makedirs(os.path.join(base, pkg), exist_ok=True)
+            with open(os.path.join(base, pkg, "__init__.py"), "w") as fh:
+                fh.write("from . import ma, mb\n")
+            with open(os.path.join(base, pkg, "main.py"), "w") as fh:
+                fh.write("import dds\nfrom ddsverif_rt import log, term\n\n" + fsrc % {"pk": pkg} + "\ndef f0():\n    return dds.keep('/imp/f1', f1)\n")
+            for step, (va, vb) in enumerate([(1, 1), (2, 1), (2, 2), (1, 1)]):
+                for (mn, v) in (("ma", va), ("mb", vb)):
+                    with open(os.path.join(base, pkg, mn + ".py"), "w") as fh:
+                        fh.write("XA = %d\n\ndef fa():\n    return '%s.fa#%d'\n" % (10 * v, mn, v))
+                real.load_world(base, pkg + ".main", None, accept=pkg)
+                ref.call(cmd="world", dir=base, module=pkg + ".main", extmod=None)
+                entry = {"kind": "eval", "fun": "f0"}
+                rr = ref.call(cmd="run", entry=entry)
+                r = real.run(entry)
+                res.evaluations += 1
+                res.count("import_directed_steps")
+                res.nontrivial("imports directed %d %d" % (di_, step))
+                if rr.get("error") is not None:
+                    raise common.Infra("directed import case %d does not run: %s" % (di_, rr["error"]))
+                if r["error"] is not None and r["error"].get("kind") == "dds" and not must:
+                    res.count("import_directed_steps_refused")
+                    continue
+                if r["error"] is not None or r["value"] != rr["value"]:
+                    res.violations.append({"what": "%s: after an edit of the imported module the kept function returns %r (error %s), plain execution %r" % (
+                        what, r["value"], r["error"], rr["value"]), "input": {"source": fsrc % {"pk": pkg}, "step": step}, "kf": None})
+                    break
+        finally:
+            shutil.rmtree(base, ignore_errors=True)
+            for k in list(sys.modules):
+                if k.split(".")[0] == pkg:
+                    del sys.modules[k]
+
+
+def analysed_names_full(modname, fname):
+    """the real analysis of the function: (local paths of the variables recorded, full paths of the functions analysed)"""
+    import importlib
+    from dds.introspect import introspect
+    from dds._eval_ctx import EvalMainContext
+    from dds.fun_args import get_arg_ctx
+    import dds.introspect as di
+    mod = importlib.import_module(modname)
+    f = getattr(mod, fname)
+    ectx = EvalMainContext(f.__module__, whitelisted_packages=di._accepted_packages, start_globals={},
+                           resolved_references=OrderedDict())
+    fis = introspect(f, ectx, get_arg_ctx(f, (), {}))
+    vs = set(str(d.local_path) for d in fis.external_deps)
+    fs = set(str(x.fun_path).strip("<>") for x in fis.parsed_body)
+    return vs, fs
+
+
 LOOPS = [
     # (what, source of f0 and helpers, must evaluate: True = the values of plain execution are required, False = a refusal is fine)
     ("a keep in a comprehension, one argument per iteration",
